@@ -39,3 +39,13 @@ claim("C20", "implicit frame clause `modifies nothing` on every unit (any store 
              "freshness of built containers")
 claim("C01", "value clauses of loaders (result equals constructor applied to the dumped form) for scalars; container loaders map "
              "element-wise; round-trip lemmas over loader+dumper contracts are being added")
+
+claim("C09", "per-function contracts on the resolution machinery: ExactOriginCombiner (flush leaves the buffer empty, emitted items in "
+             "order), both routers' route_handler (first match at/after the offset, loop invariant), BasicRequestBus._send_inner "
+             "(loop invariant + strictly increasing offset: no handler consulted twice; answer = response of a routed handler), "
+             "RecursiveRequestBus (tracking only in top-level send), chaining handler (direction, exactly-once via call log), "
+             "mediator.provide_from_next, retort-in-recipe, bound_by_any; unbounded over recipes/offsets/requests",
+      note=NOTE + " C09-specific: route_handler is used through its proved contract (modular); AggregateCannotProvide.make and the "
+                  "note-attaching helpers are abstracted (opaque); get_request_handlers of a retort is checked for bounded recipe "
+                  "shapes; equivalence of create_router_for_located_request with the linear scan and recipe assembly "
+                  "(head+instance+class+tail, extend/replace) are not yet under contract.")
